@@ -811,9 +811,10 @@ func c26ExecConc(c c26Case, x *pbt.Ctx) error {
 func TestC26(t *testing.T) {
 	rule := "1..12 outputs over 2 accounts x 2 assets x {no vote, a vote key} (skewed to one class), amounts 1..100 or 2^40..2^57, valid heights {0,99,100,101,200} around the current height 100, each confirmed / unconfirmed / both, a few contract outputs; 1..14 ops Reserve (amount near the total / mature total / fractions of it / 1..120, +-2) / ReserveParticular (also unknown hash) / Cancel / expire(t); non-trivial = the set has a confirmed+unconfirmed duplicate or some call failed; distinct by case"
 	pbt.Run(t, "C26", rule+"; sequential: after every op the keeper's live reservations and reserved index are compared with a set model, every result is judged (see the source for the error precedence)",
-		pbt.Options{Sub: "sequential", Checks: pbt.Per(20000, 1500000)}, c26GenWith(false), c26ExecSeq)
+		pbt.Options{Sub: "sequential", Checks: pbt.Per(12000, 900000)}, c26GenWith(false), c26ExecSeq)
 	pbt.Run(t, "C26", rule+"; concurrent: the ops are dealt round-robin to 4 goroutines (a cancel targets one of the goroutine's own reservations); per-result validity, state-independent error rules, final no-overlap/index consistency, and any two reservations sharing an output must be separable by a release (logical-clock intervals); built with -race by the driver",
-		pbt.Options{Sub: "concurrent", Checks: pbt.Per(6000, 400000)}, c26GenWith(false), c26ExecConc)
-	pbt.Run(t, "C26", rule+"; zero-amount: as sequential, with Reserve amounts of 0 (reachable through the veto action, which does not reject a zero amount)",
-		pbt.Options{Sub: "zero-amount", Checks: pbt.Per(3000, 100000)}, c26GenWith(true), c26ExecSeq)
+		pbt.Options{Sub: "concurrent", Checks: pbt.Per(4000, 300000)}, c26GenWith(false), c26ExecConc)
+	// Reserve(amount 0) is outside the domain: both callers (spend and veto actions) reject a zero
+	// amount before they reach the keeper (the veto action since the "fix: veto action rejects a
+	// zero amount" commit; before it a zero-amount veto panicked in the UTXO selection).
 }
